@@ -130,7 +130,8 @@ String TextFile::text()
 	byte head[8];
 	if (n >= 2) // Read BOM
 	{
-		read(head, 2);
+		if (read(head, 2) < 2) // shorter than the cached size says: no BOM
+			head[0] = head[1] = 0;
 		if (head[0] == 0xff && head[1] == 0xfe) // UTF16LE
 		{
 			Array<wchar_t> a;
@@ -169,7 +170,7 @@ String TextFile::text()
 			text = a.data();
 			return text;
 		}
-		else if (head[0] == 0xef && head[1] == 0xbb && n>=3 && read<byte>() == 0xbf) // UTF8
+		else if (head[0] == 0xef && head[1] == 0xbb && n>=3 && read(head + 2, 1) == 1 && head[2] == 0xbf) // UTF8
 		{
 		}
 		else
